@@ -94,6 +94,9 @@ def case_kind(case):
     if case["fault"]:
         return "fault"
     if last["ev"] == "close":
+        # cycle never ends by itself: two whole rounds and one more item count as a full consumption
+        if case["cfg"]["tool"] == "cycle" and case["cfg"]["data"][0] and case["nnext"] >= 2 * len(case["cfg"]["data"][0]) + 1:
+            return "full"
         return "prefix"
     return "full"
 
@@ -165,6 +168,8 @@ def judge(args):
             flavours.append({"src": ["cls"] * (nsrc_ - 1) + ["clsnoclose"], "call": "asyncdef"})
     if "C06" in want and kind == "fault":
         flavours.append({"src": "clstruthy", "call": "asyncdef"})
+    if "C01" in want and kind == "full" and not is_agg and tool != "iter":
+        flavours.append({"src": "list", "call": "asyncdef"})    # plain lists, edited by the caller once a tool is through with them
     if "C02" in want and is_agg:
         # the input given as async iterator, list, or one-shot iterator
         flavours = [{"src": f, "call": "asyncdef"} for f in ("cls", "list", "iter")]
@@ -177,7 +182,7 @@ def judge(args):
             flavours = [{"src": f, "call": "asyncdef"} for f in ("cls", "agen", "list", "iter")]
     for fl in flavours:
         for fk in fault_kinds:
-            if fl["src"] != "cls" and not ({"C04", "C19", "C02", "C06"} & want):
+            if fl["src"] != "cls" and not ({"C04", "C19", "C02", "C06", "C01"} & want):
                 continue
             if isinstance(fl["src"], list):
                 fl = dict(fl, outer="cls")
@@ -186,11 +191,11 @@ def judge(args):
             canonical = fl["src"] == "cls" and fk == "exc"
             obs_log = o.log
             # C01: items and ending at full consumption
-            if "C01" in want and canonical and kind == "full" and not is_agg:
+            if "C01" in want and (canonical or fl["src"] == "list") and fk == "exc" and kind == "full" and not is_agg:
                 ey, oy = tm.yields(exp_log), tm.yields(obs_log)
                 cls = tm.items_diff_class(ey, oy)
                 if cls:
-                    viol("C01", cls, {"projection": "yields", "expected": ey, "observed": oy})
+                    viol("C01", cls + ("+list-input" if fl["src"] == "list" else ""), {"projection": "yields", "expected": ey, "observed": oy, "input": fl["src"]})
                 ee, oe = tm.ending(exp_log), tm.ending(obs_log)
                 if ee != oe:
                     viol("C01", f"ending-{'-'.join(map(str, oe))}-instead-of-{'-'.join(map(str, ee))}",
